@@ -153,22 +153,60 @@ func init() {
 		// range-fork mirror rule
 		if f := p.Func("core/trie2", "", "handleEdgeFork"); f != nil {
 			n := 0
-			for _, s := range findSites(f, "unset") {
-				args := s.Args()
-				if len(args) < 5 {
+			// the cuts below the edge: direct calls of unset, or calls of a same-package helper that forwards a boundary key and the
+			// side to its own call of unset
+			type cut struct {
+				site      Site
+				key, side string
+			}
+			var cuts []cut
+			for _, s := range sitesOf(f) {
+				if s.Callee == nil {
 					continue
 				}
+				args := s.Args()
+				if s.Callee.Name() == "unset" && len(args) >= 5 {
+					cuts = append(cuts, cut{s, term(args[2]), term(args[4])})
+					continue
+				}
+				if pkgRelOf(s.Callee) != pkgRelOf(f) || len(s.Callee.Blocks) == 0 {
+					continue
+				}
+				for _, hs := range findSites(s.Callee, "unset") {
+					ha := hs.Args()
+					if len(ha) < 5 {
+						continue
+					}
+					keyT, sideT := "", ""
+					for k, prm := range s.Callee.Params {
+						if k >= len(args) {
+							continue
+						}
+						if strings.Contains(term(ha[2]), "LSBs("+prm.Name()+", ") {
+							keyT = "LSBs(" + term(args[k]) + ", pos)"
+						}
+						if ha[4] == ssa.Value(prm) {
+							sideT = term(args[k])
+						}
+					}
+					if keyT != "" && sideT != "" {
+						cuts = append(cuts, cut{s, keyT, sideT})
+					}
+				}
+			}
+			for _, ct := range cuts {
+				s := ct.site
 				n++
-				removeLeft := term(args[4])
-				pathT := term(args[2])
+				removeLeft := ct.side
+				pathT := ct.key
 				want := map[string]string{"false": "left", "true": "right"}[removeLeft]
 				ok := want != "" && strings.Contains(pathT, "LSBs("+want+", pos)")
 				c.check(ok, "range-fork", "handleEdgeFork: unset(removeLeft="+removeLeft+")", p.Pos(s.Pos()), "cuts below the edge along the "+want+" boundary path", "unset(removeLeft="+removeLeft+") follows "+pathT+" — the side that is cut must follow the boundary proof that points into the edge ("+want+")")
-				// guarded by the matching fork flag
+				// guarded by the matching fork flag (whatever the two flags are called: …Right/.right, …Left/.left)
 				d := p.mustHoldAt(s.Instr)
-				flag := map[string]string{"false": "edgeForkRight != 0", "true": "edgeForkLeft != 0"}[removeLeft]
+				flag := map[string]string{"false": "ight != 0", "true": "eft != 0"}[removeLeft]
 				okf, miss := everyDisjunctHas(d, []string{flag})
-				c.check(okf, "range-fork", "handleEdgeFork: unset(removeLeft="+removeLeft+") guard", p.Pos(s.Pos()), "under "+flag, "unset(removeLeft="+removeLeft+") is not under "+flag+": "+miss)
+				c.check(okf, "range-fork", "handleEdgeFork: unset(removeLeft="+removeLeft+") guard", p.Pos(s.Pos()), "under the fork flag of the opposite boundary (…"+flag+")", "unset(removeLeft="+removeLeft+") is not under …"+flag+": "+miss)
 			}
 			if n < 2 {
 				c.und("range-fork", "handleEdgeFork", p.Pos(fnPos(f)), "the two unset calls were not found")
